@@ -61,8 +61,10 @@ def PartLearner.policy : PartLearner → DupPolicy
 
 /-- the chunking arguments an `ndl.ndl` part runs through with (`CfgOK`:
     `2 ≤ events_per_temporary_file < 2³²`, `1 ≤ n_outcomes_per_job`, and for
-    OpenMP `nOut + n_outcomes_per_job < 2³²`, where `nOut` bounds the number of
-    outcome labels any state of the chain can have); none for `dict_ndl` -/
+    OpenMP `n_outcomes_per_job < 2³²` and `⌈nOut / n_outcomes_per_job⌉ ·
+    n_outcomes_per_job < 2³²` (no wrap-around of the part bounds), where `nOut`
+    bounds the number of outcome labels any state of the chain can have — `CfgOK`
+    is monotone in it, `CfgOK.mono`); none for `dict_ndl` -/
 def PartLearner.ChunksOK (nOut : Nat) : PartLearner → Prop
   | .dict _ _ => True
   | .ndl cfg => CfgOK cfg nOut
